@@ -1692,18 +1692,19 @@ impl<'input, T: Input> Scanner<'input, T> {
         // ```
         if self.input.next_is_z() {
             let contents = match chomping {
-                // We strip trailing linebreaks. Nothing remain.
-                Chomping::Strip => String::new(),
+                // There is no content: stripping or clipping leaves nothing, whatever the
+                // number of empty lines (the line break after the header is not content).
+                Chomping::Strip | Chomping::Clip => String::new(),
                 // There was no newline after the chomping indicator.
                 _ if self.mark.line == start_mark.line() => String::new(),
-                // We clip lines, and there was a newline after the chomping indicator.
-                // All other breaks are ignored.
-                Chomping::Clip => chomping_break,
-                // We keep lines. There was a newline after the chomping indicator but nothing
-                // else.
-                Chomping::Keep if trailing_breaks.is_empty() => chomping_break,
-                // Otherwise, the newline after chomping is ignored.
-                Chomping::Keep => trailing_breaks,
+                // We keep the empty lines. A last line made of spaces only and without a line
+                // break counts as one.
+                Chomping::Keep => {
+                    if self.mark.col > 0 {
+                        trailing_breaks.push_str(&chomping_break);
+                    }
+                    trailing_breaks
+                }
             };
             return Ok(Token(
                 Span::new(start_mark, self.mark),
